@@ -244,4 +244,99 @@ theorem allocFound_spec (hr : Heur) {s : St} (hI : Inv s) {len o l : Nat} (f : F
     · have := ensureSize_ge { s2 with bits := setRange s2.bits o olen true, stats := updStats hr s2.stats len } ((o + olen) * bsz s2) (by simp only; rw [hfr2.aunit]; exact hap)
       rw [← hfr2.bsz]; exact this
 
+theorem scanLowest_spec {au maxOff len : Nat} {t : List Ext} {best : Option Ext} {k : Ext}
+    (h : scanLowest au maxOff len t best = some k) :
+    (k ∈ t ∧ fitsAligned au maxOff len k = true) ∨ best = some k := by
+  induction t generalizing best with
+  | nil => simp only [scanLowest] at h; exact Or.inr h
+  | cons x xs ih =>
+    simp only [scanLowest] at h
+    by_cases hc : (lowerThan x best && fitsAligned au maxOff len x) = true
+    · rw [if_pos hc] at h
+      rcases ih h with c | c
+      · exact Or.inl ⟨List.mem_cons_of_mem _ c.1, c.2⟩
+      · simp only [Option.some.injEq] at c; subst c
+        simp only [Bool.and_eq_true] at hc
+        exact Or.inl ⟨List.mem_cons_self .., hc.2⟩
+    · rw [if_neg hc] at h
+      rcases ih h with c | c
+      · exact Or.inl ⟨List.mem_cons_of_mem _ c.1, c.2⟩
+      · exact Or.inr c
+
+theorem pickAligned_spec {s : St} {len maxOff : Nat} {k : Ext} (h : pickAligned s len maxOff = some k) :
+    k ∈ s.tree ∧ fitsAligned (aunitBlk s) maxOff len k = true := by
+  unfold pickAligned at h
+  simp only at h
+  split at h
+  · cases h
+  · rename_i k0 hk0
+    have hm0 : k0 ∈ s.tree := by
+      split at hk0
+      · rename_i k1 h1; simp only [Option.some.injEq] at hk0; subst hk0; exact (findMatching_spec h1).1
+      · exact (findMatching_spec hk0).1
+    by_cases c : fitsAligned (aunitBlk s) maxOff len k0 = true
+    · simp only [c, if_true, Option.some.injEq] at h; subst h; exact ⟨hm0, c⟩
+    · simp only [c] at h
+      rcases scanLowest_spec h with d | d
+      · exact d
+      · cases d
+
+/-- `_fsm_blk_allocate_aligned_lw`: either NO_FREE_SPACE with the state untouched, or `len` blocks at a page-aligned
+    offset `≤ maxOff` taken out of one free extent -/
+theorem allocAligned_spec {s : St} (hI : Inv s) {len maxOff : Nat} (hlen : 0 < len) :
+    ((allocAligned s len maxOff).2.1 = .noFree ∧ (allocAligned s len maxOff).1 = s) ∨
+    ((allocAligned s len maxOff).2.1 = .ok ∧ ∃ o l, (o, l) ∈ s.tree ∧ o ≤ (allocAligned s len maxOff).2.2 ∧
+      (allocAligned s len maxOff).2.2 + len ≤ o + l ∧
+      Taken s (allocAligned s len maxOff).1 o l (allocAligned s len maxOff).2.2 len ∧
+      (allocAligned s len maxOff).2.2 % aunitBlk s = 0 ∧ (allocAligned s len maxOff).2.2 ≤ maxOff) := by
+  unfold allocAligned
+  cases hp : pickAligned s len maxOff with
+  | none => exact Or.inl ⟨rfl, rfl⟩
+  | some k =>
+    right
+    obtain ⟨hm, hfit⟩ := pickAligned_spec hp
+    obtain ⟨o, l⟩ := k
+    unfold fitsAligned at hfit
+    simp only [Bool.and_eq_true, decide_eq_true_eq] at hfit
+    obtain ⟨⟨f1, f2⟩, f3⟩ := hfit
+    have f0 : o ≤ roundup o (aunitBlk s) := le_roundup o hI.au
+    generalize hno : roundup o (aunitBlk s) = noff at f0 f1 f2 f3
+    have hrun := (hI.ix.idx o l).mp hm
+    have hend := hrun.end_le_size
+    rw [hI.size] at hend
+    -- the state after `carve`, in the shape `taken_of` expects
+    have hcarve : carve s (o, l) len =
+        ((let s1 := delFbk s o l
+          let s1 := if noff > o then putFbk s1 o (noff - o) else s1
+          if o + l > noff + len then putFbk s1 (noff + len) (o + l - (noff + len)) else s1), noff) := by
+      unfold carve
+      simp only [hno]
+      by_cases c : l - (noff - o) > len
+      · have c' : o + l > noff + len := by omega
+        have e : l - (noff - o) - len = o + l - (noff + len) := by omega
+        simp only [c, c', if_true, e]
+      · have c' : ¬ (o + l > noff + len) := by omega
+        simp only [c, c', if_false]
+    simp only [hcarve]
+    generalize hs2 : (if o + l > noff + len then
+        putFbk (if noff > o then putFbk (delFbk s o l) o (noff - o) else delFbk s o l) (noff + len) (o + l - (noff + len))
+      else if noff > o then putFbk (delFbk s o l) o (noff - o) else delFbk s o l) = s2
+    have htk := taken_of hI hm (a := noff) (n := len) hlen f0 (by omega) s2 (by rw [← hs2])
+    have hbits2 : s2.bits = s.bits := by
+      rw [← hs2]; repeat' split
+      all_goals simp only [putFbk_bits, delFbk_bits]
+    have hfr2 : Frame s s2 := by
+      rw [← hs2]; repeat' split
+      · exact (delFbk_frame _ _ _).trans ((putFbk_frame _ _ _).trans (putFbk_frame _ _ _))
+      · exact (delFbk_frame _ _ _).trans (putFbk_frame _ _ _)
+      · exact (delFbk_frame _ _ _).trans (putFbk_frame _ _ _)
+      · exact delFbk_frame _ _ _
+    have hsb : setBits s2 noff len true = ({ s2 with bits := setRange s2.bits noff len true }, .ok) := by
+      apply setBits_ok (by rw [hfr2.nbits]; omega)
+      intro i h1 h2
+      rw [hbits2]; simpa using hrun.2.1 i (by omega) (by omega)
+    rw [hsb]
+    refine ⟨rfl, o, l, hm, f0, by omega, htk, ?_, f1⟩
+    rw [← hno]; exact roundup_mod _ _
+
 end IwModel.Fsm
